@@ -167,7 +167,7 @@ Definition json_signal_object (uj : Z -> bytes) (s : signal) (d : data) : option
           [Lit t_rbrace])
   else None.
 
-(** one member: '"' name '":' object (the name is appended unescaped, encode.go:23-25) *)
+(** one member: quote name quote colon object (the name is appended unescaped, encode.go:23-25) *)
 Definition json_member (uj : Z -> bytes) (s : signal) (d : data) : option (list segment) :=
   match json_signal_object uj s d with
   | Some o => Some ([Lit t_quote; Lit (s_name s); Lit t_quote_colon] ++ o)
